@@ -1755,6 +1755,14 @@ fn forward_device_data(
         len
     );
 
+    // update the state of shared subscription: the messages above have been
+    // handed to this member whether or not its buffer is now full
+    if let Some(share) = shared_group {
+        share.update_next_client();
+        // update the shared cursor
+        share.cursor = request.cursor;
+    }
+
     if len >= MAX_CHANNEL_CAPACITY - 1 {
         debug!("Outgoing channel reached its capacity");
         #[cfg(rumqtt_verif)]
@@ -1765,13 +1773,6 @@ fn forward_device_data(
     }
 
     outgoing.handle.try_send(()).ok();
-
-    // update the state of shared subscription
-    if let Some(share) = shared_group {
-        share.update_next_client();
-        // update the shared cursor
-        share.cursor = request.cursor;
-    }
 
     if caughtup {
         ConsumeStatus::FilterCaughtup
